@@ -232,8 +232,11 @@ func arrayExecMerge(ar *Array, values []r.Element) (r.Element, error) {
 	var result []r.Element
 	result = append(result, ar.value...)
 	for _, v := range values {
-		varr := v.(*Array).value
-		result = append(result, varr...)
+		// like the other mutators, store copies: merging a list that holds the
+		// receiver itself (以A（合并：【A】）) must not make A contain A
+		for _, item := range v.(*Array).value {
+			result = append(result, DuplicateValue(item))
+		}
 	}
 	// update new array
 	ar.value = result
